@@ -15,7 +15,7 @@ META = dict(
     trusted_base=['decimal.Decimal(d) == d for a Decimal d (the only stubbed external; Decimal values are exact reals, no NaN/quantize)',
                   'str.strip() returns a string no longer than its argument'],
     assumptions=['float bounds min/max are not NaN', 'max_len >= 1 (max_len=0 is documented by the code as "no limit": falsy)',
-                 'custom py_check is an effect returning an arbitrary bool'],
+                 'custom py_check is an effect returning an arbitrary bool, or one of 9 enumerated non-bool results judged by truth value'],
 )
 
 
@@ -232,8 +232,20 @@ def _attr_configs(tier):
     out = []
     for cls in ('Required', 'Optional'):
         for val in ('None', 'value', 'zero', 'false'):
-            out.append(dict(cls=cls, val=val))
+            out.append(dict(cls=cls, val=val, check_kind='bool'))
+            # a custom check is any callable: its result counts by truth value (re.match -> None, v % 2 -> 0, a function that falls off its end -> None ...)
+            for kind in CHECK_RESULTS:
+                if kind != 'bool': out.append(dict(cls=cls, val=val, check_kind=kind))
     return out
+
+
+class _Truthy(object):
+    def __bool__(self): return True
+class _Falsy(object):
+    def __bool__(self): return False
+    def __eq__(self, other): return other is False       # even one that claims to be equal to False is just falsy
+    __hash__ = object.__hash__
+CHECK_RESULTS = {'bool': None, 'None': None, 'int 0': 0, 'int 1': 1, 'empty str': '', 'str': 'matched', 'empty list': [], 'float 0.0': 0.0, 'match object': _Truthy(), 'falsy object': _Falsy()}
 
 
 def _attr_case(cfg, values):
@@ -260,7 +272,7 @@ def _attr_case(cfg, values):
 
         def py_check(v):
             g.append(('py_check', v))
-            return flags['check_result']
+            return flags['check_result'] if cfg['check_kind'] == 'bool' else CHECK_RESULTS[cfg['check_kind']]
         attr.py_check = py_check if flags['has_check'] else None
         val = {'None': None, 'value': 'v', 'zero': 0, 'false': False}[cfg['val']]
         cur().state['val'] = val
@@ -283,7 +295,8 @@ def _attr_spec(cfg, i, path):
         return L.And(L.Not(acc), isinstance(path.value, ValueError))
     # non-None value: converter decides, then the custom check; Required additionally rejects the empty string
     normalised = path.state['val']
-    acc = L.And(L.Not(T('converter_rejects')), L.Or(L.Not(T('has_check')), T('check_result')))
+    passed = T('check_result') if cfg['check_kind'] == 'bool' else bool(CHECK_RESULTS[cfg['check_kind']])
+    acc = L.And(L.Not(T('converter_rejects')), L.Or(L.Not(T('has_check')), passed))
     if path.outcome == 'ret':
         ok_val = path.value is normalised
         return L.And(acc, ok_val, conv_called)
